@@ -530,7 +530,7 @@ pub fn damaged_scenarios(scns: &[Scn]) -> Vec<Scn> {
     dscn
 }
 
-fn rawcopy_after_empty_reads(src: &[Vec<u8>], si: usize, i: usize, k: usize, raw_open: bool, st: &mut Stats, order: u64) {
+pub fn rawcopy_after_empty_reads(src: &[Vec<u8>], si: usize, i: usize, k: usize, raw_open: bool, st: &mut Stats, order: u64) {
             st.evals += 1;
             let run = |empty_reads: usize| -> Result<Vec<u8>, String> {
                 crate::util::guard(|| {
